@@ -8,6 +8,8 @@ O3 instrumented thread pool: every future submitted during a monitored call
 import functools
 import threading
 
+import os
+
 import numpy as np
 
 from .. import attach, gen
@@ -329,7 +331,39 @@ def wl_par_reduce(rng, rec, tier):
     got = core.par_reduce(lambda a, b: a + b, seq, num_threads=nt)
     rec.check("par_reduce", "sum", got == sum(seq), mech="par_reduce:sum",
               detail={"n": len(seq), "num_threads": nt}, sig=(len(seq), nt, "sum"))
-    return {"k": k, "num_threads": nt}
+    desc = {"k": k, "num_threads": nt}
+    if rng.random() < 0.04:
+        # bounded progress: a parallel Kronecker product of a few larger operands with
+        # a small worker count must finish (nested use of the one cached pool); run in
+        # a child process so that a hang is an observation, not the end of the shard
+        import subprocess
+        import sys
+        nw = int(gen.choice(rng, [2, 2, 3]))
+        nk = 4 if nw == 2 else 6
+        dim = int(rng.integers(12, 17))
+        code = (
+            "import numpy as np, quimb as qu\n"
+            f"rng = np.random.default_rng({int(rng.integers(1 << 30))})\n"
+            f"ops = [qu.qu(rng.normal(size={dim})) for _ in range({nk})]\n"
+            "got = qu.kron(*ops, parallel=True)\n"
+            "want = ops[0]\n"
+            "for o in ops[1:]:\n"
+            "    want = np.kron(want, o)\n"
+            "assert np.allclose(got, want)\n"
+            "print('DONE')\n")
+        env = dict(os.environ, QUIMB_NUM_THREAD_WORKERS=str(nw), OMP_NUM_THREADS=str(nw))
+        try:
+            r = subprocess.run([sys.executable, "-c", code], env=env, capture_output=True, text=True, timeout=90)
+            outcome = "done" if "DONE" in r.stdout else "failed"
+        except subprocess.TimeoutExpired:
+            outcome = "hang"
+        if outcome == "failed":
+            rec.count("par_reduce", "finishes", "rejected")
+        else:
+            rec.check("par_reduce", "finishes", outcome == "done", mech="par_reduce:kron_parallel:no_progress_with_few_workers",
+                      detail={"workers": nw, "operands": nk, "dim": dim, "timeout_s": 90}, sig=("finishes", nw))
+        desc["child"] = outcome
+    return desc
 
 
 def wl_randn(rng, rec, tier):
